@@ -34,6 +34,15 @@ type c15Msg struct {
 type c15Reply struct{ ID int }
 type c15Filler struct{ done chan struct{} }
 
+// c15Piped: a message that reaches the actor by a path that is NOT an Ask (Tell, PipeTo, PipeToName);
+// the handler nevertheless calls Response with a reply no Ask may ever see.
+type c15Piped struct {
+	ID   int
+	done chan struct{}
+}
+
+const c15NoiseBase = 900000
+
 func c15Goid() uint64 {
 	var buf [64]byte
 	n := runtime.Stack(buf[:], false)
@@ -172,6 +181,11 @@ func (a *c15Actor) Receive(ctx *ReceiveContext) {
 		d.unregister()
 	case *c15Filler:
 		close(m.done)
+	case *c15Piped:
+		ctx.Response(&c15Reply{ID: c15NoiseBase + m.ID})
+		if m.done != nil {
+			close(m.done)
+		}
 	}
 }
 
@@ -188,6 +202,7 @@ type c15Op struct {
 	N         int    `json:"n"`
 	Target    int    `json:"target"`
 	Cancel    bool   `json:"cancel"` // start: the Ask gets a cancellable context (cancelled by op "cancel")
+	Kind      string `json:"kind"`   // noise: tell | pipe | pipename
 }
 
 type c15Case struct {
@@ -420,6 +435,31 @@ func c15RunCase(t *testing.T, sys ActorSystem, c c15Case) c15Out {
 			} else {
 				return fail("op %d: ask %d has no cancellable context", n, op.I)
 			}
+		case "noise":
+			// deliveries that are not Asks, to an actor that calls Response on them
+			for k := 0; k < op.N; k++ {
+				m := &c15Piped{ID: 100*n + k, done: make(chan struct{})}
+				to := targets[op.Target%len(targets)]
+				from := targets[(op.Target+1)%len(targets)]
+				var err error
+				switch op.Kind {
+				case "pipe":
+					err = from.PipeTo(ctx, to, func() (any, error) { return m, nil })
+				case "pipename":
+					err = from.PipeToName(ctx, to.Name(), func() (any, error) { return m, nil })
+				default:
+					err = from.Tell(ctx, to, m)
+				}
+				if err != nil {
+					return fail("op %d: noise %s: %v", n, op.Kind, err)
+				}
+				select {
+				case <-m.done:
+				case <-time.After(4 * time.Second):
+					return fail("op %d: noise message not handled", n)
+				}
+			}
+			d.note("env", "noise")
 		case "tell":
 			for k := 0; k < op.N; k++ {
 				f := &c15Filler{done: make(chan struct{})}
@@ -505,6 +545,32 @@ func TestVerifC15Stress(t *testing.T) {
 	recs := []c15StressRec{}
 	var wg sync.WaitGroup
 	var nextID atomic.Int64
+	// background traffic that is not Ask: Tell / PipeTo / PipeToName of messages the targets Response to
+	stopNoise := make(chan struct{})
+	var nwg sync.WaitGroup
+	nwg.Add(1)
+	go func() {
+		defer nwg.Done()
+		rng := newVerifRNG(verifSeed() + 4242)
+		for k := 0; ; k++ {
+			select {
+			case <-stopNoise:
+				return
+			default:
+			}
+			to, from := targets[rng.intn(len(targets))], targets[rng.intn(len(targets))]
+			m := &c15Piped{ID: k % 1000}
+			switch rng.intn(3) {
+			case 0:
+				_ = from.Tell(ctx, to, m)
+			case 1:
+				_ = from.PipeTo(ctx, to, func() (any, error) { return m, nil })
+			default:
+				_ = from.PipeToName(ctx, to.Name(), func() (any, error) { return m, nil })
+			}
+			time.Sleep(200 * time.Microsecond)
+		}
+	}()
 	for a := 0; a < nAskers; a++ {
 		wg.Add(1)
 		go func(a int) {
@@ -558,6 +624,8 @@ func TestVerifC15Stress(t *testing.T) {
 		}(a)
 	}
 	wg.Wait()
+	close(stopNoise)
+	nwg.Wait()
 	time.Sleep(100 * time.Millisecond)
 	for i := range recs {
 		if v, ok := c15SentAt.Load(recs[i].ID); ok {
